@@ -869,7 +869,7 @@ def check_symbol_successor(ctx, F):
         ctx.touch(b)
         key = 'R9/symbol-successor/' + b.defpath
         role = 'the successor of a symbol is formed only below the end of the support'
-        bad = None
+        bad = unk = None
         seen = 0
         for r in paths or []:
             for i, e in enumerate(r.events):
@@ -898,13 +898,18 @@ def check_symbol_successor(ctx, F):
                         ok = True
                     if (op == 'Lt' and v and l == x) or (op == 'Gt' and v and rr == x) or (op == 'Ge' and not v and l == x) or (op == 'Le' and not v and rr == x):
                         ok = True
-                if not ok:
+                mentioned = any(ev2['kind'] == 'branch' and sym.contains(ev2['term'], lambda y: y == x) and not (ev2['term'][0] == 'discr' and ev2['term'][1] == x) for ev2 in r.events[:i])
+                if not ok and mentioned:
+                    unk = 'the successor of %s follows a test on it that the rule does not read' % sym.show(x)[:60]
+                elif not ok:
                     bad = 'the successor of %s is formed on a path without a test that it is below/different from the last symbol: for a support that ends at the largest value of the symbol type the increment overflows' % sym.show(x)[:60]
         if seen == 0:
             continue
         n += 1
         if bad:
             ctx.bad('R9', role, b.defpath, bad, key=key, loc=rules.loc(b))
+        elif unk:
+            ctx.unresolved('R9', role, b.defpath, unk, key=key)
         else:
             ctx.ok('R9', role, b.defpath, '%d successor site(s)/path(s), each behind a strict comparison' % seen, key=key)
     if n == 0:
